@@ -285,6 +285,25 @@ func sessionMain(args []string) {
 					}
 				}
 				fm.WaitIdle()
+			case "bigbulk":
+				// one bulk whose compressed meta block is about 20 MB: 700 documents with a 30000-byte incompressible token
+				dp := frac.NewDocProvider()
+				r := vh.NewRNG(4242)
+				for i := 0; i < 700; i++ {
+					val := make([]byte, 30000)
+					for j := range val {
+						val[j] = "0123456789abcdefghijklmnopqrstuvwxyzABCDEFGHIJKLMNOPQRSTUVWXYZ+-"[r.U64()&63]
+					}
+					toks := append(seq.Tokens("_all_:", "service:bigbulk"), seq.Token{Field: []byte("payload"), Val: val})
+					dp.Append([]byte("big document"), nil, seq.ID{MID: seq.MID(1_600_000_000_000 + uint64(i)), RID: seq.RID(i + 1)}, toks)
+				}
+				dd, mm := dp.Provide()
+				say("BIGBULK meta=%d", len(mm))
+				if err := fm.Append(context.Background(), dd, mm); err != nil {
+					say("APPENDERR %v", err)
+					os.Exit(4)
+				}
+				fm.WaitIdle()
 			case "seal":
 				fm.SealForcedForTests()
 			case "sealrace":
@@ -568,6 +587,7 @@ type history struct {
 	steps      []step
 	n          int
 	seed       int64
+	big        bool // the second `fill` is one bulk whose compressed meta block is about 20 MB, the third a second corpus
 }
 
 func (h history) events() string {
@@ -579,6 +599,9 @@ func (h history) events() string {
 }
 
 func (h history) String() string {
+	if h.big {
+		return fmt.Sprintf("life skip=%s keep=%s n=%d seed=%d big=1 events=%s", vh.B(h.skip), vh.B(h.keep), h.n, h.seed, h.events())
+	}
 	return fmt.Sprintf("life skip=%s keep=%s n=%d seed=%d events=%s", vh.B(h.skip), vh.B(h.keep), h.n, h.seed, h.events())
 }
 
@@ -588,6 +611,7 @@ func runHistory(work string, h history) (obs []string, finalServed string, died 
 	os.MkdirAll(dir, 0o755)
 	track := ""
 	i := 0
+	fills := 0
 	for i < len(h.steps) {
 		// one session: its Load is `new` (empty directory, first session) or `start`
 		first := h.steps[i]
@@ -606,7 +630,15 @@ func runHistory(work string, h history) (obs []string, finalServed string, died 
 				s := h.steps[j]
 				switch s.ev {
 				case "fill":
-					ops = append(ops, fmt.Sprintf("fill:%d:%d", h.seed, h.n))
+					fills++
+					switch {
+					case h.big && fills == 2:
+						ops = append(ops, "bigbulk")
+					case h.big && fills == 3:
+						ops = append(ops, fmt.Sprintf("fill:%d:%d", h.seed+1, h.n))
+					default:
+						ops = append(ops, fmt.Sprintf("fill:%d:%d", h.seed, h.n))
+					}
 				case "seal":
 					ops = append(ops, "seal")
 				case "asuicide", "ssuicide", "suicide":
@@ -694,9 +726,16 @@ func runHistory(work string, h history) (obs []string, finalServed string, died 
 		}
 		i = j
 	}
-	res := runCheck(dir, h.skip, h.keep, fmt.Sprintf("%d:%d", h.seed, h.n))
+	corpora := fmt.Sprintf("%d:%d", h.seed, h.n)
+	if h.big {
+		corpora += fmt.Sprintf(",%d:%d", h.seed+1, h.n)
+	}
+	res := runCheck(dir, h.skip, h.keep, corpora)
 	if !res.up {
 		return obs, "down", res.detail
+	}
+	if h.big && res.served[h.seed] != res.served[h.seed+1] { // the bulks before and after the big one fare differently
+		return obs, "part", res.detail
 	}
 	return obs, res.served[h.seed], res.detail
 }
@@ -748,8 +787,16 @@ func (h *harness) life(hist history) {
 	h.orLife.Case(hist.String(), crashed, tags...)
 	if served == "down" {
 		site, class := "fracmanager/loader.go:filterInfos", "start-up-dies-on-crash-state"
+		if strings.Contains(hist.events(), ";start;seal") && strings.Contains(detail, "seal") {
+			// the store came up, the fraction left by the interrupted seal was replayed, and sealing it again killed the process
+			site, class = "frac/active_sealer.go:Seal", "reseal-after-crash-fails"
+		}
 		h.rep.Violate(vh.Violation{Site: site, Class: class,
 			What:   fmt.Sprintf("history %s: the store does not start: %s; states %s", hist.events(), detail, strings.Join(obs, ";")),
+			Replay: []string{hist.String()}})
+	} else if hist.big && served != "all" {
+		h.rep.Violate(vh.Violation{Site: "frac/active.go:Replay", Class: "start-up-truncates-valid-bulks",
+			What:   fmt.Sprintf("history %s with one bulk of about 20 MB of compressed meta between ordinary bulks, no seal: after the restarts the unsealed fraction serves %q of the acknowledged documents written before and after the big bulk: %s; states %s", hist.events(), served, detail, strings.Join(obs, ";")),
 			Replay: []string{hist.String()}})
 	} else if strings.Contains(hist.events(), "startc") && !strings.Contains(hist.events(), "suicide") && served != "all" {
 		h.rep.Violate(vh.Violation{Site: "frac/active.go:Replay", Class: "cancelled-start-up-loses-documents",
@@ -812,7 +859,7 @@ func dataFiles(o string) string {
 }
 
 func (h *harness) histories(skip, keep bool, n int, seed int64, full bool) []history {
-	mk := func(steps ...step) history { return history{skip, keep, steps, n, seed} }
+	mk := func(steps ...step) history { return history{skip, keep, steps, n, seed, false} }
 	st := func(ev string) step { return step{ev, 0} }
 	at := func(ev string, k int) step { return step{ev, k} }
 	var hs []history
@@ -869,6 +916,21 @@ func (h *harness) histories(skip, keep bool, n int, seed int64, full bool) []his
 		}
 	}
 	// crash inside the seal, restart, seal again, delete
+	// an interrupted seal leaves ._index / ._sdocs / .sdocs behind; the store starts and the fraction is sealed AGAIN
+	// (rotation + seal), then restarted
+	resealAt := []int{1, 2, 3, 6}
+	if skip {
+		resealAt = []int{1, 2, 3}
+	}
+	for _, k := range resealAt {
+		hs = append(hs, mk(st("new"), st("fill"), at("seal", k), st("start"), st("seal"), st("start"), st("start")))
+	}
+	// one bulk with a meta block of about 20 MB between ordinary ones, the fraction never sealed, two restarts
+	if !skip && !keep {
+		hb := mk(st("new"), st("fill"), st("fill"), st("fill"), st("start"), st("start"))
+		hb.big = true
+		hs = append(hs, hb)
+	}
 	// the start-up context is cancelled (SIGTERM) while the unsealed fraction is being replayed, then a normal start
 	for _, k := range []int{1, 2, 4} {
 		hc := mk(st("new"), st("fill"), at("startc", k), st("start"), st("start"))
@@ -1407,7 +1469,7 @@ func main() {
 			case strings.HasPrefix(l, "life "):
 				n, _ := strconv.Atoi(kv["n"])
 				seed, _ := strconv.ParseInt(kv["seed"], 10, 64)
-				h.life(history{kv["skip"] == "1", kv["keep"] == "1", parseEvents(kv["events"]), n, seed})
+				h.life(history{kv["skip"] == "1", kv["keep"] == "1", parseEvents(kv["events"]), n, seed, kv["big"] == "1"})
 			case strings.HasPrefix(l, "sealretention "):
 				n, _ := strconv.Atoi(kv["n"])
 				seed, _ := strconv.ParseInt(kv["seed"], 10, 64)
